@@ -46,11 +46,41 @@ Definition spec_must_reject (secs : list gsection) : bool :=
                        | _, _ => false
                        end) schema_tops.
 
+(* the specification again, at any depth: some struct section - the empty one included - lacks a required key *)
+Fixpoint missing_required_deep (fuel : nat) (k : fkind) (items : list gitem) : bool :=
+  match fuel with
+  | O => false
+  | S fu =>
+      match k with
+      | KStruct sid =>
+          match find_struct schema_structs sid with
+          | Some st =>
+              existsb (fun f => f_required f && negb (key_assigned items (f_key f))) (s_fields st)
+              || existsb (fun i => match i with
+                                   | GSection n sub => match find_field (s_fields st) n with
+                                                       | Some f => missing_required_deep fu (f_kind f) sub
+                                                       | None => false
+                                                       end
+                                   | _ => false
+                                   end) items
+          | None => false
+          end
+      | KStructList sid =>
+          existsb (fun i => match i with GSection _ sub => missing_required_deep fu (KStruct sid) sub | _ => false end) items
+      | _ => false
+      end
+  end.
+Definition spec_missing_required (secs : list gsection) : bool :=
+  existsb (fun t => match lookup_last secs (t_name t) None with
+                    | Some items => missing_required_deep 8 (t_kind t) items
+                    | None => false
+                    end) schema_tops.
+
 (* codes: 1 impl<>model, 2 impl<>spec, 9 crash, 3 model<>spec *)
 Definition check_build (c : build_case) : list N :=
   let m := build schema_structs (oracle_of (bc_oracle c)) schema_tops schema_global_sid (bc_sections c) in
   let mcode := match m with BOk => 0 | BErr e => err_code e end in
-  let must := spec_must_reject (bc_sections c) in
+  let must := spec_must_reject (bc_sections c) || spec_missing_required (bc_sections c) in
   let e_im := if mcode =? bc_impl c then [] else [1] in
   let e_is := if bc_impl c =? 100 then [9]
               else if must && (bc_impl c =? 0) then [2]
